@@ -7,6 +7,7 @@ and the raw body is a data token; template data becomes TemplateData, is emitted
 constant and never passes through the finalize hook; the whitespace-control code can only
 remove whitespace (shared with C12).  Not decided: equality of output and input text over
 all strings.
+Also: delimiter / prefix strings are interpolated into patterns only as re.escape(<string>).
 """
 
 from __future__ import annotations
